@@ -249,6 +249,46 @@ def unit_norm(rep, mir, L):
             sol = z3.Solver(); sol.set('timeout', 30000); sol.add(S > 0, *ax); sol.add(y[i] * A.uf['sqrt'](S) != x[i].v); r = sol.check(); nq += 1
             if r == z3.sat: bad.append(('array_normalize changes the direction', n))
         rep.absorb_vm(vm)
+        # ---- esh_momentum_update: every sqrt / exp / ln_1p application is replaced by a variable constrained by its defining facts (G = |g| > 0,
+        # z = exp(-delta) > 0, R = norm of the raw vector > 0); sinh/cosh of delta are the rationals (1/z -+ z)/2 of z
+        A = RealAlg(); vm = VM(mir, A, inst={}); cpuenv.install(vm, 2)
+        fn = mir.method('CpuMath', 'Math', 'esh_momentum_update'); m = Machine(); selfc = m.alloc(Struct((Opaque('logp'), Opaque('arch'), Seq(())), 'CpuMath'))
+        g = [A.fresh('g%d' % i) for i in range(n)]; u = [A.fresh('u%d' % i) for i in range(n)]; eps = A.fresh('eps'); gc = m.alloc(Seq(g)); uc = m.alloc(Seq(u))
+        outs = [o for o in vm.run(fn, [Ref(selfc), Ref(gc), Ref(uc), eps], m)]
+        rets = [o for o in outs if o[1] == 'ret']
+        if len(rets) != 1 or len(outs) != 1: bad.append(('esh_momentum_update panics or forks for n=%d' % n, [k for (_, k, _) in outs])); continue
+        (m1, k, v) = rets[0]; y = [t.v for t in m1.mem[uc].items]; dke = v.v
+        used = list(A.used); kinds = [nm for (nm, a_, t_) in used]
+        if kinds != ['sqrt', 'exp', 'sqrt', 'ln_1p']: rep.unknown('C18 ESH closed form n=%d' % n, 'unexpected transcendental calls %s' % kinds); continue
+        fv = [z3.Real('%s_%d' % (nm, i)) for i, (nm, a_, t_) in enumerate(used)]; sub = [(t_, fv[i]) for i, (nm, a_, t_) in enumerate(used)]
+        def ab(t):
+            for _ in range(4): t = z3.substitute(t, *sub)
+            return t
+        G, Z, Rn, Lp = fv; S, C = z3.Real('sinh_delta'), z3.Real('cosh_delta')
+        hyp = [G > 0, G * G == ab(used[0][1][0]), Z > 0, Rn > 0, Rn * Rn == ab(used[2][1][0]), 2 * Z * S == 1 - Z * Z, 2 * Z * C == 1 + Z * Z]
+        e = [g[i].v / G for i in range(n)]; alpha = z3.Sum([u[i].v * e[i] for i in range(n)]); delta = eps.v * G / (n - 1)
+        num = [u[i].v + e[i] * (S + alpha * (C - 1)) for i in range(n)]; den = C + alpha * S
+        import math
+        def prove(what, neg, extra=(), to=60000, only2=False, cheap=False):
+            nonlocal nq
+            if n == 3 and rep.tier != 'thorough' and not cheap: return      # quick tier, n = 3: only the statements that take milliseconds
+            if only2 and n != 2: return      # z3 does not finish these two polynomial identities for n = 3 within minutes: stated as outside
+            verdict, model = rep.check('C18 ESH n=%d: %s' % (n, what), hyp + list(extra) + [neg], timeout_ms=to); nq += 1
+            if verdict == 'violated': bad.append(('ESH update: ' + what, n, str(model)[:200]))
+        prove('z = exp(-delta) with delta = eps |g| / (n-1)', ab(used[1][1][0]) != -delta, cheap=True)
+        for i in range(n): prove('new momentum %d is (2z/R) x [u + e (sinh d + (e.u)(cosh d - 1))], the closed-form ESH numerator' % i, ab(y[i]) * Rn != 2 * Z * num[i], only2=True)
+        prove('new momentum has unit norm', z3.Sum([ab(t) * ab(t) for t in y]) != 1, to=240000)
+        unit = [z3.Sum([u[i].v * u[i].v for i in range(n)]) == 1]
+        prove('closed form stays on the sphere: |numerator|^2 = (cosh d + (e.u) sinh d)^2 when |u| = 1', z3.Sum([t * t for t in num]) != den * den, unit, to=480000)
+        prove('denominator cosh d + (e.u) sinh d > 0 when |u| = 1', den <= 0, unit, cheap=True)
+        prove('argument of ln_1p: 1 + a = 2 z (cosh d + (e.u) sinh d)', 1 + ab(used[3][1][0]) != 2 * Z * den, only2=True)
+        prove('reported kinetic-energy change = (n-1)(delta - LN_2 + ln_1p(a))', ab(dke) != (delta - A.const(math.log(2)).v + Lp) * (n - 1), cheap=True)
+        rep.absorb_vm(vm)
+    # two positive multiples of one vector with the same norm are equal (links "direction of the numerator" + "unit norm" to the closed form u' = numerator / denominator)
+    a_, b_, w0, w1, w2 = z3.Reals('lem_a lem_b lem_w0 lem_w1 lem_w2'); w2n = w0 * w0 + w1 * w1 + w2 * w2
+    verdict, model = rep.check('C18 lemma: a, b > 0, |a w| = |b w| = 1  =>  a = b', [a_ > 0, b_ > 0, a_ * a_ * w2n == 1, b_ * b_ * w2n == 1, a_ != b_], timeout_ms=30000); nq += 1
+    if verdict == 'violated': bad.append(('scaling lemma fails', str(model)[:100]))
+    rep.axioms.append('ESH: sinh d = (1/z - z)/2, cosh d = (1/z + z)/2 for z = exp(-d); ln_1p(x) = ln(1 + x), ln(2 z X) = ln 2 + ln z + ln X, ln z = -d, LN_2 = ln 2 (so the reported change is (n-1) ln(cosh d + (e.u) sinh d))')
     rep.paths += nq
     if bad: rep.violated('C18 unit norm / ESH closed form', 'esh', 'microcanonical momentum update: %s' % (bad[0],), model={'problems': [str(b)[:300] for b in bad]})
-    else: rep.holds('C18 CpuMath::array_normalize over exact reals (n = 2, 3): unit norm afterwards, direction unchanged (%d queries)' % nq)
+    else: rep.holds('C18 CpuMath::array_normalize and esh_momentum_update over exact reals (n = 2, 3): unit norm afterwards; normalize keeps the direction; the ESH update is the unit vector along the closed-form numerator (= numerator / denominator by the sphere identity and the scaling lemma) and reports (n-1)(delta - LN_2 + ln_1p(a)) with 1 + a = 2z(cosh d + (e.u) sinh d) (%d queries)' % nq)
